@@ -242,9 +242,8 @@ def run(ctx):
     # ---- R3
     tv = classes[0].function('visit')
     src = ast.unparse(tv.node)
-    ok = X.has(src, 'self.rebuilt[o] = obj') and X.has(src, 'obj = super().visit(o, *args, **kwargs)')
-    (ctx.judge('R3', 'Transformer.visit records rebuilt') if ok else
-     ctx.violation('R3', 'Transformer.visit', tv.where, 'Transformer.visit does not record self.rebuilt[o] = obj for the visited node'))
+    ctx.wired('R3', 'Transformer.visit', tv.where, src, ['self.rebuilt[o] = obj', 'obj = super().visit(o, *args, **kwargs)'],
+              'Transformer.visit does not record self.rebuilt[o] = obj for the visited node')
     guard = [n for n in ast.walk(tv.node) if isinstance(n, ast.If) and 'self.rebuilt' in ast.unparse(n)]
     if guard:
         t = ast.unparse(guard[0].test)
